@@ -1180,11 +1180,17 @@ class SmtLibParser(object):
         self.consume_opening(tokens, command)
         res: List[Union[FNode, str]] = []
         while True:
-            try:
-                current = cast(Union[FNode, str], assert_not_none(self.get_expression(tokens)))
-                res.append(current)
-            except PysmtSyntaxError:
+            # The list ends at its closing parenthesis only: a syntax
+            # error inside one of the expressions is an error of the
+            # command (it used to end the list silently, with the
+            # binders of the broken expression still in the cache)
+            tk = tokens.consume("Unexpected end of stream in %s command." %
+                                command)
+            if tk == ")":
                 return res
+            tokens.add_extra_token(tk)
+            current = cast(Union[FNode, str], assert_not_none(self.get_expression(tokens)))
+            res.append(current)
 
     def consume_opening(self, tokens: Tokenizer, command: str):
         """ Consumes a single '(' """
